@@ -55,3 +55,19 @@ Theorem C02_token_request_parameters_cannot_change_the_grant :
   step cfg s (ORedeem auth code redirect v vh sm) = step cfg s (ORedeem auth code redirect v vh sm').
 Proof. exact redeem_ignores_smuggled. Qed.
 Print Assumptions C02_token_request_parameters_cannot_change_the_grant.
+
+(* the acceptance clauses of the history monitor (Cases/Monitors.v judge_C02) on the model: for a tracker whose view of
+   the presented code (client, redirect_uri, granted scopes) is the stored authorization request's, an accepted model
+   redemption can only trip the clock clause (which compares two readings of the tracker's own clock) - never "foreign
+   client", "without client authentication", "differing redirect_uri" or "token response scope differs from grant" *)
+From FositeModel Require Import Cases.CasesHist Cases.Monitors Proofs.MonitorC02.
+Theorem C02_monitor_acceptance_clauses_hold_of_the_model : forall cfg m s auth code redirect v vh sm pr i c,
+  cred m code = Some (i, c) ->
+  (forall k r, key_of s code = Some k -> codes (st s) k = Some (true, r) ->
+     ci_client c = r_client r /\ ci_redirect c = r_redirect r /\ ci_scopes c = r_gscopes r) ->
+  let o := ORedeem auth code redirect v vh sm in
+  o_err (snd (step cfg s o)) = "" ->
+  let verdict := fst (fst (judge_C02 cfg m o (snd (step cfg s o)) pr)) in
+  verdict = None \/ verdict = Some "code_redeemed_after_its_expiry".
+Proof. exact judge_C02_acceptance_clauses_sound. Qed.
+Print Assumptions C02_monitor_acceptance_clauses_hold_of_the_model.
